@@ -30,7 +30,7 @@ ASSUMPTIONS = [
     "the completed configuration compared with cfg/config.json",
 ]
 GATES = {
-    "nan_invalid_disparity": 1, "verbose_command_line_runs": 1, "reference_system_without_authority_code": 1, "validation_step_with_a_suffixed_name_only": 1, "infinite_invalid_disparity": 1, "minus_infinity_invalid_disparity": 1, "two_or_more_bands": 1, "grids": 1, "georeferenced_input": 1, "validation_present": 2,
+    "nan_invalid_disparity": 1, "float_parameters_with_more_than_six_decimals": 1, "verbose_command_line_runs": 1, "reference_system_without_authority_code": 1, "validation_step_with_a_suffixed_name_only": 1, "infinite_invalid_disparity": 1, "minus_infinity_invalid_disparity": 1, "two_or_more_bands": 1, "grids": 1, "georeferenced_input": 1, "validation_present": 2,
     "validation_absent": 2, "replayed_configurations": 5, "subprocess_runs": 1, "rasters_compared": 20, "right_input_with_its_own_georeferencing": 1,
     "save_results_on_synthetic_products": 20, "product_heights_around_128_256_512": 5,
 }
@@ -117,11 +117,20 @@ def build_config(rng, d, directed=False, tall=0):
     if sfx_kind:
         keys, params = pipes.suffix_bare_steps(keys, params, {"validation"} if sfx_kind == "validation-only" else set(keys),
                                                ["cc", "1", "v1.5", "last step"][int(rng.integers(0, 4))])
-    inv = [-9999, "NaN", 0.5, "-inf", "inf", -12345.5][int(rng.integers(0, 6))]
+    inv = [-9999, "NaN", 0.5, "-inf", "inf", -12345.5, -1.2345678e-3][int(rng.integers(0, 7))]
+    long_floats = rng.random() < 0.3 or (tall == 128)
+    if long_floats:
+        # legal float parameters with more than six significant decimals: the saved configuration must hold them exactly
+        inv = -1.2345678e-3
+        for k in keys:
+            if pipes.kind_of(k) == "validation":
+                params[k]["cross_checking_threshold"] = 0.9999996
+            if params[k].get("filter_method") == "bilateral":
+                params[k]["sigma_color"] = 1.23456789
     if directed:
         inv = "-inf"
-    if tall:
-        inv = "NaN"  # directed constructor of the NaN class (case 1 of every command-line shard)
+    if tall and not long_floats:
+        inv = "NaN"  # directed constructor of the NaN class (case 1 of the command-line shards)
     for k in keys:
         if pipes.kind_of(k) == "disparity":
             params[k]["invalid_disparity"] = inv
@@ -295,6 +304,7 @@ def run_case(case, ctx):
     ctx.gate("right_input_with_its_own_georeferencing", int(desc["right_georef_differs"] and desc["validation"]))
     ctx.gate("nan_invalid_disparity", int(desc["invalid_disparity"] == "NaN"))
     ctx.gate("reference_system_without_authority_code", int(bool(desc["crs"]) and not desc["crs"].startswith("EPSG")))
+    ctx.gate("float_parameters_with_more_than_six_decimals", int(desc["invalid_disparity"] == -1.2345678e-3))
     ctx.gate("validation_step_with_a_suffixed_name_only", int(desc["suffixed_validation_only"]))
     ctx.gate("infinite_invalid_disparity", int(desc["invalid_disparity"] in ("inf", "-inf")))
     ctx.gate("minus_infinity_invalid_disparity", int(desc["invalid_disparity"] == "-inf"))
